@@ -109,7 +109,7 @@ def process_violations(prop: str, base: int, tot: Dict, oracles: List[str], budg
         small, mstats = runner.minimise(plan, cls, rep, sessrun.candidates, budget_s=budget_s, max_execs=600)
         doc = {"property": prop, "violation": item["v"], "class": list(cls), "base_seed": base, "run_index": item["run"], "seed": plan["seed"],
                "plan": small, "original_steps": len(plan["steps"]), "minimised_steps": len(small["steps"]), "minimiser": mstats, "oracles": oracles}
-        path = runner.write_replay(prop, "%d-%d-%s" % (base, item["run"], item["v"]["oracle"]), doc)
+        path = runner.write_replay(prop, "%d-%d-%s-%d" % (base, item["run"], item["v"]["oracle"], len(reported)), doc)
         cp = subprocess.run([os.path.join(env.VERIF_DIR, "check"), prop, "--replay", path], capture_output=True, text=True, timeout=900)
         if "VIOLATION property=%s" % prop not in cp.stdout:
             runner.say("HARNESS-ERROR: minimised plan does not reproduce in a fresh interpreter: %s" % path)
